@@ -53,6 +53,13 @@ def call_method(I, recv, name, args, kwargs):
         return bytes_method(I, B.to_sbytes(recv) if not isinstance(recv, SBytes) else recv, name, args, kwargs)
     if isinstance(recv, (SInt, SBool)) or (isinstance(recv, int) and _sym(args)):
         return int_method(I, recv, name, args, kwargs)
+    from .api import SymList
+
+    if isinstance(recv, SymList):
+        if name == "append":
+            recv.tail.append(args[0])
+            return None
+        raise Unsupported(f"method {name} on a havocked list")
     if isinstance(recv, list):
         return list_method(I, recv, name, args, kwargs)
     if isinstance(recv, dict):
@@ -83,7 +90,10 @@ def call_method(I, recv, name, args, kwargs):
 
 def bytes_method(I, b, name, args, kwargs):
     if name == "hex":
-        return SStr("hex")
+        sep = args[0] if args else kwargs.get("sep", "")
+        if isinstance(sep, SVal) or len(args) > 1 or "bytes_per_sep" in kwargs:
+            return SStr("hex")
+        return SStr("hex", [SBytes(list(b.segs)), sep])
     if name == "extend":
         if not b.mutable:
             I.raise_py(AttributeError, "'bytes' object has no attribute 'extend'")
@@ -134,6 +144,12 @@ def bytes_method(I, b, name, args, kwargs):
             return False
         part = B.slice_(I, b, slice(0, n)) if name == "startswith" else B.slice_(I, b, slice(-n, None)) if n else SBytes([])
         return B.eq(I, part, p)
+    if name == "ljust" and getattr(b, "_rstripped0", None) is not None and len(args) == 2 and args[1] == b"\0":
+        full = b._rstripped0
+        n = full.fixed_len()
+        if n is not None and args[0] == n:
+            return SBytes(list(full.segs), False)  # strip trailing NULs then pad with NULs to the same length
+        raise Unsupported("ljust of NUL-stripped bytes to another length")
     if name in ("ljust", "rjust", "strip", "rstrip", "lstrip", "split", "find", "index", "count", "replace", "partition", "fromhex", "pop", "insert", "remove", "reverse", "clear", "zfill"):
         if b.fixed_len() is not None and not any(not isinstance(s.v, int) for s in SBytes(b.segs).expand().segs if isinstance(s, BSeg)):
             conc = bytes(s.v for s in SBytes(b.segs).expand().segs)
@@ -146,7 +162,11 @@ def bytes_method(I, b, name, args, kwargs):
 
 
 def decode_bytes(I, b, args, kwargs):
-    raise Unsupported("bytes.decode on symbolic bytes")
+    """latin-1 decoding is total and injective: kept structured as SStr('latin1', [octets])."""
+    enc = args[0] if args else kwargs.get("encoding", "utf-8")
+    if isinstance(enc, str) and enc.lower().replace("-", "_") in ("latin_1", "latin1", "iso_8859_1", "iso8859_1", "l1"):
+        return SStr("latin1", [SBytes(list(b.segs))])
+    raise Unsupported(f"bytes.decode({enc!r}) on symbolic bytes")
 
 
 def int_method(I, v, name, args, kwargs):
@@ -293,6 +313,10 @@ def str_method(I, s, name, args, kwargs):
             return getattr(s, name)(*args, **kwargs)
         except Exception as ex:
             raise PyRaise(I.mkexc(type(ex), *ex.args))
+    if isinstance(s, SStr) and s.tag == "hex" and s.parts and name == "replace" and len(args) == 2 and args[0] == s.parts[1] and args[1] == "" and args[0] != "":
+        return SStr("hex", [s.parts[0], ""])
+    if isinstance(s, SStr) and s.tag == "latin1" and name == "rstrip" and args == ["\0"]:
+        return SStr("latin1_rstrip0", [s.parts[0]])
     if name in ("format", "join", "lower", "upper", "strip", "lstrip", "rstrip", "replace", "title", "capitalize", "ljust", "rjust", "zfill", "format_map", "casefold", "removeprefix", "removesuffix"):
         if name == "join":
             list(I.iterate(args[0], None, None))
